@@ -66,10 +66,11 @@ TRequire == IsEv("require") /\ cfg.owner[TE.b] = TE.a /\ Require(TE.b) /\ Match
 TOut     == IsEv("out") /\ SetOut(TE.a, TE.b) /\ Match
 TProvide == IsEv("provide") /\ Provide(TE.a, TE.b) /\ Match
 TRel     == IsEv("rel") /\ Rel(TE.a) /\ Match
+TAttach  == IsEv("attach") /\ Attach(TE.a) /\ Match
 TLoop    == IsEv("loop") /\ (IF TE.a = "A" THEN RunA ELSE RunB) /\ Match
 
 TInit == l = 1 /\ InitWith(CHOOSE c \in Scenarios : TRUE)
-TNext == TReset \/ TReg \/ TUnreg \/ TRequire \/ TOut \/ TProvide \/ TRel \/ TLoop
+TNext == TReset \/ TReg \/ TUnreg \/ TRequire \/ TOut \/ TProvide \/ TRel \/ TAttach \/ TLoop
 TSpec == TInit /\ [][TNext]_tvars
 
 Accepted == LET d == TLCGet("stats").diameter IN
